@@ -182,7 +182,13 @@ def call(**kw):
                     purity._count("decoy_solves_rejected")  # a decoy outside the accepted argument space (parity, size): not a verdict
     kw = _spell(kw)
     a = [kw.pop(k) for k in ARGN]
-    res = purity.guarded(steady_state_transport_solver, "steady_state_transport_solver")(*a, **kw)
+    import warnings as _w
+
+    with _w.catch_warnings(record=True) as _rec:
+        _w.simplefilter("always")
+        res = purity.guarded(steady_state_transport_solver, "steady_state_transport_solver")(*a, **kw)
+    for w_ in _rec:  # diagnostics only (counted in the evidence): a warning is not a verdict
+        purity._count(f"warning_during_solve:{w_.category.__name__}:{str(w_.message)[:40]}")
     # finiteness monitor: a comparison "error > tolerance" is blind to NaN, so every field returned for finite arguments is looked at
     # here (footprint mode does not read the source values; a dispersion run of a non-finite source is not judged)
     try:
